@@ -269,8 +269,8 @@ func payloadCodecs() []*codec {
 
 	nr := &codec{
 		name: "payload.P2PNotaryRequest", pkg: pp,
-		gen:  func(bool) []any { return toAny(notaryRequests()) },
-		enc:  func(v any) ([]byte, error) { return v.(*payload.P2PNotaryRequest).Bytes() },
+		gen: func(bool) []any { return toAny(notaryRequests()) },
+		enc: func(v any) ([]byte, error) { return v.(*payload.P2PNotaryRequest).Bytes() },
 		dec: func(b []byte) (any, error) {
 			r, err := payload.NewP2PNotaryRequestFromBytes(b)
 			if err != nil {
@@ -278,7 +278,7 @@ func payloadCodecs() []*codec {
 			}
 			return r, nil
 		},
-		hash: func(v any) string { return v.(*payload.P2PNotaryRequest).Hash().StringLE() },
+		hash:    func(v any) string { return v.(*payload.P2PNotaryRequest).Hash().StringLE() },
 		size:    func(v any) int { return io.GetVarSize(v) },
 		maxSeed: 420,
 	}
@@ -435,6 +435,24 @@ func messageCodecs() []*codec {
 				}
 				return ""
 			},
+			seedEnc: func(v any) ([]byte, error) {
+				m := v.(*network.Message)
+				c := &network.Message{Command: m.Command, Payload: m.Payload, StateRootInHeader: m.StateRootInHeader}
+				b, err := c.BytesCompressed(false)
+				if err != nil || !compress || len(b) < 4 {
+					return b, err
+				}
+				// flags, command, var-int length, payload -> literal-only LZ4 block
+				r := io.NewBinReaderFromBuf(b[2:])
+				pl := r.ReadVarBytes(payload.MaxSize)
+				if r.Err != nil {
+					return nil, r.Err
+				}
+				if len(pl) == 0 {
+					return b, nil
+				}
+				return rawMessage(byte(network.Compressed), m.Command, lz4Literals(pl)), nil
+			},
 			canon: func(v any) ([]byte, error) {
 				m := v.(*network.Message)
 				c := &network.Message{Command: m.Command, Payload: m.Payload, StateRootInHeader: m.StateRootInHeader}
@@ -499,9 +517,13 @@ func consensusMessages(sr bool) []namedBytes {
 	}
 	// recoveryMessage: changeViews, (prepareRequest | preparationHash | nothing), preparations, commits
 	inv := byteStrings(0)
-	cvc := func(i int) []byte { return cat([]byte{u8s[i%3], u8s[(i+1)%3]}, le64(u64s[i%3]), varint(uint64(len(inv[i%4]))), inv[i%4]) }
+	cvc := func(i int) []byte {
+		return cat([]byte{u8s[i%3], u8s[(i+1)%3]}, le64(u64s[i%3]), varint(uint64(len(inv[i%4]))), inv[i%4])
+	}
 	prc := func(i int) []byte { return cat([]byte{u8s[i%3]}, varint(uint64(len(inv[i%4]))), inv[i%4]) }
-	cmc := func(i int) []byte { return cat([]byte{u8s[i%3], u8s[(i+2)%3]}, rep(u8s[i%3], 64), varint(uint64(len(inv[i%4]))), inv[i%4]) }
+	cmc := func(i int) []byte {
+		return cat([]byte{u8s[i%3], u8s[(i+2)%3]}, rep(u8s[i%3], 64), varint(uint64(len(inv[i%4]))), inv[i%4])
+	}
 	list := func(n int, f func(int) []byte) []byte {
 		b := varint(uint64(n))
 		for i := 0; i < n; i++ {
